@@ -106,6 +106,11 @@ func (r *rec) Finish(ctx context.Context, c *app.RequestContext) {
 		// base level always records these two
 		problem = "HTTPStart/HTTPFinish missing"
 	}
+	// an exchange that ended in an error says so to the tracer that finishes it: the error the
+	// final event is marked with is the one Stats().Error() reports
+	if x := st.GetEvent(stats.HTTPFinish); x != nil && x.Status() == stats.StatusError && st.Error() == nil {
+		problem = "the HTTPFinish event is marked as an error but Stats().Error() is nil inside Finish"
+	}
 	r.mu.Lock()
 	body := ""
 	if !c.Request.IsBodyStream() {
